@@ -16,6 +16,7 @@ func init() {
 func newAddr(c *Ctx, ctor string, net int, data []byte) Event {
 	return c.Call(Event{"op": "NewAddr", "ctor": ctor, "net": net, "data": ints(data)})
 }
+
 var nDecode int
 
 func decode(c *Ctx, s string, net int) Event {
